@@ -178,6 +178,14 @@ int main() {
         else if (op == "sqrtrem.rar") { if (al1 < 0) r = 77; if (al2 < 0) r2 = 78; sqrtrem(r, a[0], r2); o << r << " " << r2; }
         else if (op == "sqrtrem.ar") { if (al2 < 0) r2 = 78; r_ = sqrtrem(a[0], r2); o << r_ << " " << r2; }
         else if (op == "root") { if (al1 < 0) r = 77; bool ex = root(r, a[0], (uint32_t)(uint64_t)a0[1]); o << r << " " << (ex ? 1 : 0); }
+        // ------------------------------------------------------------ Integer helpers the anchored code calls (size, logarithms)
+        else if (op == "logtwo") { char bf[64]; snprintf(bf, sizeof bf, "%.17g", logtwo(a[0])); o << bf; }
+        else if (op == "naturallog") { char bf[64]; snprintf(bf, sizeof bf, "%.17g", naturallog(a[0])); o << bf; }
+        else if (op == "length") { o << length(a[0]); }
+        else if (op == "bitsize") { o << a[0].bitsize(); }
+        else if (op == "size") { o << a[0].size(); }
+        else if (op == "isperfectpower") { o << (isperfectpower(a[0]) ? 1 : 0); }
+        else if (op == "nonzerorandom.bits") { Z d; uint64_t mx = 0; for (int i = 0; i < 8; ++i) { Z::nonzerorandom(d, (uint64_t)a[0]); if (d.bitsize() > mx) mx = d.bitsize(); o << (d > 0 ? 1 : 0); } o << " " << mx; }
         // ------------------------------------------------------------ helpers of the domain with an output parameter
         else if (op == "gcd") { NT.gcd(r, a[0], a[1]); o << r; }
         else if (op == "powmod") { NT.powmod(r, a[0], a[1], a[2]); o << r; }
